@@ -13,7 +13,9 @@
 //	  outcome  done | refused | errorState | reqLost | replyLost   one per request the transitioner issues
 //	(rule OK TRIG SAMEEVT STATEISDST)    one reply shape through the real client.doTransition (acceptance rule)
 //
-// Obs:   (REPORTED ERRKIND ((EVT SRC DST ARGS)*) FINAL)     ERRKIND = nil | rejected | transport
+// Obs:   (REPORTED ERRKIND ((EVT SRC DST ARGS)*) FINAL)     ERRKIND = nil | rejected | transport | unimplemented
+//
+//	unimplemented = the error fairmq.go Commit itself returns for GO_ERROR / RECOVER ("transition not implemented: …")
 //
 //	REPORTED is the finalState string Commit returned, FINAL the device's real state afterwards,
 //	the list is every EventInfo the device saw (DST is "-" with rpc wiring: it is not on the wire).
@@ -182,6 +184,8 @@ func errKind(err error) string {
 		return "transport"
 	case strings.HasPrefix(err.Error(), "transition unsuccessful"):
 		return "rejected"
+	case strings.HasPrefix(err.Error(), "transition not implemented"):
+		return "unimplemented"
 	}
 	return "other"
 }
@@ -322,8 +326,9 @@ func run(c caseIn) (obs string, exhausted bool, err error) {
 	}
 	var final string
 	var cerr error
-	// "fnfixed"/"rpcfixed": same run, but the driver compares with the model of the REPAIRED code
-	// (notes/C16.fix.patch); only generated when C16_EXPECT_FIXED is set (VERIF_REPO = patched tree).
+	// "fnfixed"/"rpcfixed" (only generated when C16_EXPECT_FIXED is set): same run. The suffix dates from before
+	// notes/C16.fix.patch was committed to /repo; the driver now always compares with the model of the code as it
+	// is (FairMQ.codeCfg) and ignores it.
 	switch strings.TrimSuffix(c.wiring, "fixed") {
 	case "fn":
 		tr := transitioner.NewTransitioner(cm, d.doTransition)
@@ -644,6 +649,29 @@ func genMaps(repo string) (string, error) {
 	b.WriteString(leanPairs("toDeviceStateFMQ", "The Src the device receives when (*FairMQ).Commit(\"START\", s, …) is called: fmqStateForState(s).", to))
 	b.WriteString(leanPairs("fromDeviceStateDirect", "(*Direct).FromDeviceState.", fromD))
 	b.WriteString(leanPairs("toDeviceStateDirect", "The Src the device receives from (*Direct).Commit.", toD))
+
+	// the branch of (*FairMQ).Commit for the two events fairmq.go does not implement, on its whole domain:
+	// what is reported, which kind of error, how many requests reached the device
+	asked := 0
+	counting := transitioner.NewTransitioner(controlmode.FAIRMQ, func(transitioner.EventInfo) (string, error) {
+		asked++
+		return "", errors.New("probe")
+	})
+	b.WriteString("/-- (*FairMQ).Commit evaluated for GO_ERROR and RECOVER from every O² source state: (event, source, finalState, kind of err, requests that reached the device). -/\n")
+	b.WriteString("def unimplementedFMQ : List (String × String × String × String × Nat) := [")
+	first := true
+	for _, evt := range []string{"GO_ERROR", "RECOVER"} {
+		for _, s := range o2States {
+			asked = 0
+			st, cerr := counting.Commit(evt, s, dstOf[evt], commitArgs)
+			if !first {
+				b.WriteString(", ")
+			}
+			first = false
+			fmt.Fprintf(&b, "(%q, %q, %q, %q, %d)", evt, s, st, errKind(cerr), asked)
+		}
+	}
+	b.WriteString("]\n\n")
 
 	pf, err := expectedFinal(repo + "/occ/plugin/OccFMQCommon.h")
 	if err != nil {
